@@ -1,8 +1,7 @@
 /-
   C20 — silent peers are dropped, live ones are kept and kept alive.
 -/
-import RdestModel.Swarm.Preds
-import RdestModel.Lemmas.Handler
+import RdestModel.Lemmas.Trace
 set_option linter.unusedSimpArgs false
 set_option linter.unusedVariables false
 namespace Rdest.Props.C20
@@ -11,169 +10,119 @@ open Rdest Rdest.Wire Rdest.Gen Rdest.Swarm
 /-- Two minutes per interval, and "within three intervals": the closing tick is at most the third. -/
 theorem constants : KEEP_ALIVE_INTERVAL_SEC = 120 ∧ KEEP_ALIVE_LIMIT + 1 ≤ 3 ∧ 1 ≤ KEEP_ALIVE_LIMIT := by decide
 
-/-! ### `kaSpec`: the declarative content -/
+/-! ### `kaRun`: the declarative content -/
 
 /-- **T2 / T3.** As long as fewer than `limit` ticks have passed without a real message, every tick writes exactly
     one `KeepAlive` and the connection is not closed. -/
 theorem T3_tick_writes_one_keepalive (limit silent k : Nat) (h : silent + k ≤ limit) :
-    kaSpec limit silent k = (List.replicate k (.write .keepAlive), silent + k, true) := by
+    kaRun limit silent k = (k, silent + k, true) := by
   induction k generalizing silent with
-  | zero => simp [kaSpec]
+  | zero => simp [kaRun]
   | succ k ih =>
     have hne : silent ≠ limit := by omega
-    simp only [kaSpec, hne, if_false]
+    simp only [kaRun, hne, if_false]
     rw [ih (silent + 1) (by omega)]
-    simp [List.replicate_succ]; omega
+    simp; omega
 
 /-- **T1.** With nothing but keep-alives (or nothing) arriving, the connection is closed exactly at the tick that
     follows `limit` silent ticks — one `KeepAlive` per tick before it, nothing at or after it. Starting from a
     freshly active connection (`silent = 0`) that is tick number `limit + 1 ≤ 3`. -/
 theorem T1_silence_closes (limit silent k : Nat) (hs : silent ≤ limit) (h : silent + k > limit) :
-    kaSpec limit silent k = (List.replicate (limit - silent) (.write .keepAlive), limit, false) := by
+    kaRun limit silent k = (limit - silent, limit, false) := by
   induction k generalizing silent with
   | zero => omega
   | succ k ih =>
     by_cases he : silent = limit
-    · subst he; simp [kaSpec]
-    · simp only [kaSpec, he, if_false]
+    · subst he; simp [kaRun]
+    · simp only [kaRun, he, if_false]
       rw [ih (silent + 1) (by omega) (by omega)]
-      have : limit - silent = (limit - (silent + 1)) + 1 := by omega
-      rw [this, List.replicate_succ]
+      simp; omega
 
-/-! ### The model's ticks are `kaSpec` -/
-
-def toHOut : Obs → HOut
-  | .write m => .write m
-  | .cmd c => .cmd c
-  | .saved h _ _ => .load h
-
-theorem tickN_spec (sha1 : Bytes → Bytes) (k : Nat) (s : HState) (acc : List HOut) (halive : s.alive = true) :
-    ∃ s', tickN sha1 k s acc =
-        some (s', acc ++ (kaSpec KEEP_ALIVE_LIMIT s.keepAlive k).1.map toHOut,
-              if (kaSpec KEEP_ALIVE_LIMIT s.keepAlive k).2.2 then none else some false) ∧
-      s'.keepAlive = (kaSpec KEEP_ALIVE_LIMIT s.keepAlive k).2.1 ∧
-      s'.alive = (kaSpec KEEP_ALIVE_LIMIT s.keepAlive k).2.2 := by
+/-- The closed form used by the trace model is the step-by-step timer (`timeout_keep_alive` iterated). -/
+theorem tickN_closed (sha1 : Bytes → Bytes) (k : Nat) (s : HState) (acc : List HOut) (halive : s.alive = true) :
+    tickN sha1 k s acc = some ((ticksClosed s k).1, acc ++ (ticksClosed s k).2.1, (ticksClosed s k).2.2) := by
   induction k generalizing s acc with
-  | zero => exact ⟨s, by simp [tickN, kaSpec], rfl, by simp [kaSpec, halive]⟩
+  | zero =>
+    simp only [tickN, ticksClosed, kaRun, halive, Bool.not_true, Bool.false_eq_true, if_false, if_true, List.replicate_zero, List.append_nil]
+    cases s; simp_all
   | succ k ih =>
-    simp only [tickN, hstep, halive, Bool.not_true, Bool.false_eq_true, if_false]
+    have hg : (!s.alive) = false := by simp [halive]
+    simp only [tickN, hstep, hg, Bool.false_eq_true, if_false]
     by_cases he : s.keepAlive = KEEP_ALIVE_LIMIT
-    · simp only [he, if_true, kaSpec, terminate]
-      refine ⟨{ s with alive := false }, by simp [he], ?_, rfl⟩
-      show s.keepAlive = KEEP_ALIVE_LIMIT
-      exact he
-    · simp only [he, if_false, kaSpec]
-      obtain ⟨s', h1, h2, h3⟩ := ih { s with keepAlive := s.keepAlive + 1 } (acc ++ [.write .keepAlive]) halive
-      simp only [halive] at h1
-      exact ⟨s', by rw [h1]; simp [toHOut], h2, h3⟩
+    · simp only [he, if_true, terminate, ticksClosed, hg, Bool.false_eq_true, if_false, kaRun]
+      simp [he]
+    · simp only [he, if_false]
+      rw [ih { s with keepAlive := s.keepAlive + 1 } (acc ++ [HOut.write Msg.keepAlive]) halive]
+      simp only [ticksClosed, hg, Bool.false_eq_true, if_false, kaRun, he]
+      simp [List.replicate_succ]
 
-theorem obs_toHOut (sha1 : Bytes → Bytes) (l : List Obs) (h : ∀ o ∈ l, ∃ m, o = .write m) :
-    (l.map toHOut).filterMap (obsOf sha1) = l := by
-  induction l with
-  | nil => rfl
-  | cons x xs ih =>
-    obtain ⟨m, rfl⟩ := h x (by simp)
-    simp only [List.map_cons, toHOut, List.filterMap_cons, obsOf]
-    rw [ih (fun o ho => h o (by simp [ho]))]
+/-! ### Main theorem: every script -/
 
-theorem kaSpec_writes (limit silent k : Nat) : ∀ o ∈ (kaSpec limit silent k).1, ∃ m, o = .write m := by
-  induction k generalizing silent with
-  | zero => simp [kaSpec]
-  | succ k ih =>
-    simp only [kaSpec]
-    split
-    · simp
-    · intro o ho
-      simp only [List.mem_cons] at ho
-      rcases ho with rfl | ho
-      · exact ⟨_, rfl⟩
-      · exact ih _ o ho
+def R20 (st : M20) (s : HState) : Prop := st.alive = s.alive ∧ (s.alive = true → st.silent = s.keepAlive)
 
-/-! ### Main theorem -/
-
-/-- After the task has ended nothing is observed any more. -/
-theorem dead_trace (sha1 : Bytes → Bytes) (limit silent : Nat) (s : HState) (hdead : s.alive = false) (script : List TIn) :
-    P20 limit silent false (runTrace sha1 s script) = true := by
-  induction script generalizing s silent with
-  | nil => simp [runTrace, P20]
-  | cons i is ih =>
-    have hstepdead : ∀ inp d, hstep sha1 d s inp = some (s, [], none) := by intro inp d; simp [hstep, hdead]
-    have htick : ∀ k, tickN sha1 k s [] = some (s, [], none) := by
-      intro k; induction k with
-      | zero => rfl
-      | succ k ihk => simp [tickN, hstepdead, ihk]
-    have hst : tstep sha1 s i = some (s, [], none) ∨ tstep sha1 s i = none := by
-      cases i with
-      | start rep => left; simp [tstep, hstart, hdead]
-      | frame m rep d => left; simp only [tstep]; exact hstepdead _ _
-      | recvErr => left; simp only [tstep]; exact hstepdead _ _
-      | eof => left; simp only [tstep]; exact hstepdead _ _
-      | bcHave i rep => left; simp only [tstep]; exact hstepdead _ _
-      | bcState e => left; simp only [tstep]; exact hstepdead _ _
-      | ticks k => left; simp only [tstep]; exact htick k
-    rcases hst with h | h
-    · simp only [runTrace, h, List.filterMap_nil, P20, Bool.not_false, if_true, List.isEmpty_nil, Option.isNone_none,
-        Bool.true_and]
-      exact ih _ s hdead
-    · simp [runTrace, h, P20]
-
-/-- **Every script**: the model's observable behaviour satisfies the keep-alive discipline `P20`, started from any
-    live state with `silent` equal to its counter. -/
-theorem C20_trace (sha1 : Bytes → Bytes) (s : HState) (halive : s.alive = true) (script : List TIn) :
-    P20 KEEP_ALIVE_LIMIT s.keepAlive true (runTrace sha1 s script) = true := by
-  induction script generalizing s with
-  | nil => simp [runTrace, P20]
-  | cons i is ih =>
-    by_cases hnt : ∃ k, i = .ticks k
+theorem step20_sound (sha1 : Bytes → Bytes) (st : M20) (s : HState) (inp : TIn) (s' : HState) (o : List HOut)
+    (e : Option Bool) (hR : R20 st s) (h : tstep sha1 s inp = some (s', o, e)) :
+    ∃ st', step20 KEEP_ALIVE_LIMIT st (inp, o.filterMap (obsOf sha1), e) = some st' ∧ R20 st' s' := by
+  obtain ⟨hRa, hRs⟩ := hR
+  cases ha : s.alive with
+  | false =>
+    rw [tstep_dead sha1 s ha inp] at h; cases h
+    refine ⟨st, ?_, ⟨hRa, fun c => by rw [ha] at c; cases c⟩⟩
+    simp [step20, hRa, ha, deadOk]
+  | true =>
+    have hsil := hRs ha
+    by_cases hnt : ∃ k, inp = .ticks k
     · obtain ⟨k, rfl⟩ := hnt
-      obtain ⟨s', h1, h2, h3⟩ := tickN_spec sha1 k s [] halive
-      simp only [runTrace, tstep, h1, List.nil_append, P20, Bool.not_true, Bool.false_eq_true, if_false]
-      rw [obs_toHOut sha1 _ (kaSpec_writes _ _ _)]
-      simp only [decide_true, Bool.true_and]
-      cases ha : (kaSpec KEEP_ALIVE_LIMIT s.keepAlive k).2.2 with
-      | true => rw [← h2]; exact ih s' (by rw [h3, ha])
-      | false => exact dead_trace sha1 _ _ s' (by rw [h3, ha]) is
-    · have hnt' : ∀ k, i ≠ .ticks k := fun k e => hnt ⟨k, e⟩
-      cases hst : tstep sha1 s i with
-      | none => simp [runTrace, hst, P20]
-      | some r =>
-        obtain ⟨s', o, e⟩ := r
-        obtain ⟨hgo, hend⟩ := tstep_core sha1 s halive i hnt' s' o e hst
-        have hsil : ∀ k, silentAfter i k = (match i with
-            | .frame m _ _ => if isKeepAlive m then k else 0
-            | _ => k) := by
-          intro k; cases i <;> try rfl
-          rename_i m _ _; cases m <;> rfl
-        cases e with
-        | none =>
-          obtain ⟨ha, hk⟩ := hgo rfl
-          have := ih s' ha
-          rw [hk, hsil] at this
-          cases i <;> simp only [runTrace, hst, P20, Bool.not_true, Bool.false_eq_true, if_false, Option.isNone_none] <;>
-            first | exact this | exact absurd rfl (hnt' _)
-        | some b =>
-          have hd := hend (by simp)
-          have := fun sil => dead_trace sha1 KEEP_ALIVE_LIMIT sil s' hd is
-          cases i <;> simp only [runTrace, hst, P20, Bool.not_true, Bool.false_eq_true, if_false, Option.isNone_some] <;>
-            first | exact this _ | exact absurd rfl (hnt' _)
+      simp only [tstep, ticks_facts s ha, Option.some.injEq, Prod.mk.injEq] at h
+      obtain ⟨rfl, rfl, rfl⟩ := h
+      refine ⟨{ silent := (kaRun KEEP_ALIVE_LIMIT s.keepAlive k).2.1, alive := (kaRun KEEP_ALIVE_LIMIT s.keepAlive k).2.2 }, ?_, ⟨rfl, fun _ => rfl⟩⟩
+      simp [step20, hRa, ha, kaSpec, obs_replicate_ka, hsil]
+      by_cases hh : (kaRun 2 s.keepAlive k).2.2 = true <;> simp [hh]
+    · have hnt' : ∀ k, inp ≠ .ticks k := fun k c => hnt ⟨k, c⟩
+      obtain ⟨hgo, hend⟩ := tstep_core sha1 s ha inp hnt' s' o e h
+      have hsilA : ∀ k, silentAfter inp k = (match inp with
+          | .frame m _ _ => if isKeepAlive m then k else 0
+          | _ => k) := by
+        intro k; cases inp <;> try rfl
+        rename_i m _ _; cases m <;> rfl
+      cases e with
+      | none =>
+        obtain ⟨ha', hk⟩ := hgo rfl
+        cases inp <;> first
+          | exact absurd rfl (hnt' _)
+          | (refine ⟨_, by simp only [step20, hRa, ha, Bool.not_true, Bool.false_eq_true, if_false]; rfl, ?_⟩
+             exact ⟨by simp [ha'], fun _ => by simp [hk, hsilA, hsil]⟩)
+      | some b =>
+        have hd := hend (by simp)
+        cases inp <;> first
+          | exact absurd rfl (hnt' _)
+          | (refine ⟨_, by simp only [step20, hRa, ha, Bool.not_true, Bool.false_eq_true, if_false]; rfl, ?_⟩
+             exact ⟨by simp [hd], fun c => by rw [hd] at c; cases c⟩)
+
+/-- **Every script of frames, broadcasts, ticks and stream ends**: the observable behaviour of the task satisfies the
+    keep-alive discipline `P20`, from any live state (with `silent` = its counter). -/
+theorem C20_trace (sha1 : Bytes → Bytes) (s : HState) (halive : s.alive = true) (script : List TIn) :
+    P20 KEEP_ALIVE_LIMIT s.keepAlive (runTrace sha1 s script) = true :=
+  checkTrace_run sha1 (step20 KEEP_ALIVE_LIMIT) R20 (fun st s inp s' o e hR h => step20_sound sha1 st s inp s' o e hR h)
+    script { silent := s.keepAlive, alive := true } s ⟨halive.symm, fun _ => rfl⟩
 
 /-! ### Corollaries in the property's words -/
 
 /-- **T1** for the source's constants: after the last real message, the third tick at the latest closes the
     connection (and with nothing but keep-alives arriving it is exactly tick `KEEP_ALIVE_LIMIT + 1`). -/
 theorem T1_closed_within_three_intervals (silent : Nat) (hs : silent ≤ KEEP_ALIVE_LIMIT) :
-    (kaSpec KEEP_ALIVE_LIMIT silent 3).2.2 = false := by
+    (kaRun KEEP_ALIVE_LIMIT silent 3).2.2 = false := by
   have hc := constants
   rw [T1_silence_closes KEEP_ALIVE_LIMIT silent 3 hs (by omega)]
 
 /-- **T2**: a connection delivering a real message at least once per interval is never closed for inactivity: a tick
     arriving with `silent < limit` never closes, and after any real message `silent` is 0 (with `1 ≤ limit`). -/
-theorem T2_live_connection_kept (limit : Nat) (h1 : 1 ≤ limit) : (kaSpec limit 0 1).2.2 = true := by
+theorem T2_live_connection_kept (limit : Nat) (h1 : 1 ≤ limit) : (kaRun limit 0 1).2.2 = true := by
   rw [T3_tick_writes_one_keepalive limit 0 1 (by omega)]
 
 /-! ### Non-vacuity (tests) -/
 
-example : kaSpec 2 0 3 = ([.write .keepAlive, .write .keepAlive], 2, false) := by decide
-example : kaSpec 2 1 1 = ([.write .keepAlive], 2, true) := by decide
+example : kaRun 2 0 3 = (2, 2, false) := by decide
+example : kaRun 2 1 1 = (1, 2, true) := by decide
 
 end Rdest.Props.C20
